@@ -287,22 +287,27 @@ def observe(case, d: Path, name, want_cmdline=False):
 
 
 # ------------------------------------------------------------------ mechanism classifiers
-def parse_units(middle, units):
-    """parse `middle` as a concatenation of distinct reference units (each at most once);
-    returns list of unit indices or None.  Prefers reference order."""
-    def rec(pos, used):
+def parse_units(middle, units, limit=200):
+    """all ways (up to `limit`) to read `middle` as a concatenation of distinct reference units
+    (each at most once); each parse is a list of unit indices."""
+    out = []
+
+    def rec(pos, used, acc):
+        if len(out) >= limit:
+            return
         if pos == len(middle):
-            return []
+            out.append(list(acc))
+            return
         for i, u in enumerate(units):
             if i in used:
                 continue
             a = u["args"]
             if a and middle[pos:pos + len(a)] == a:
-                r = rec(pos + len(a), used | {i})
-                if r is not None:
-                    return [i] + r
-        return None
-    return rec(0, frozenset())
+                acc.append(i)
+                rec(pos + len(a), used | {i}, acc)
+                acc.pop()
+    rec(0, frozenset(), [])
+    return out
 
 
 def classify_c22(exe, ref, observed, append_args):
@@ -318,9 +323,16 @@ def classify_c22(exe, ref, observed, append_args):
     if n_app and observed[-n_app:] != list(append_args):
         return None, {}
     middle = observed[len(exe):len(observed) - n_app]
-    order = parse_units(middle, units)
-    if order is None:
-        return None, {}
+    best = (None, {})
+    for order in parse_units(middle, units):
+        mech, info = _classify_order(units, order)
+        if mech:
+            return mech, info
+        best = (None, info)
+    return best
+
+
+def _classify_order(units, order):
     dropped = [i for i, u in enumerate(units) if u["args"] and i not in order]
     info = {"dropped": [[units[i]["name"], units[i]["value"]] for i in dropped],
             "order": [units[i]["name"] for i in order]}
@@ -348,11 +360,15 @@ def strip_outer_quotes(a):
     return a
 
 
-def _retok(args):
+def _retok_str(text):
     try:
-        return [strip_outer_quotes(t) for t in shlex.split(" ".join(args), posix=True)]
+        return [strip_outer_quotes(t) for t in shlex.split(text, posix=True)]
     except ValueError:
         return "error"
+
+
+def _retok(args):
+    return _retok_str(" ".join(args))
 
 
 def retokenised(exe, ref, append_args, observed=None):
@@ -364,7 +380,14 @@ def retokenised(exe, ref, append_args, observed=None):
     for c in ref["chunks"]:
         if not c["args"]:
             continue
-        whole = _retok(c["args"])
+        if c.get("ellipsis"):
+            # one string for the whole list: per-element " argstr value" pieces joined by a blank
+            pieces = [" ".join(u["args"]) for u in c["units"]]
+            if c.get("templated"):
+                pieces = [p.strip() for p in pieces]
+            whole = _retok_str(" ".join(" " + p for p in pieces))
+        else:
+            whole = _retok(c["args"])
         per_unit = []
         for u in c["units"]:
             t = _retok(u["args"])
@@ -372,8 +395,11 @@ def retokenised(exe, ref, append_args, observed=None):
                 per_unit = "error"
                 break
             per_unit += t
-        opts = [o for o in (whole, per_unit) if o != "error"]
-        if len(opts) < 2:
+        # pydra also strips the formatted string of a templated argstr before splitting it
+        stripped = _retok_str(" ".join(c["args"]).strip()) if c.get("templated") else whole
+        alts = (whole, per_unit, stripped)
+        opts = [o for o in alts if o != "error"]
+        if len(opts) < len(alts):
             can_fail = True
         cands.append(opts)
     example = list(exe)
